@@ -25,7 +25,7 @@ RULE = ("inputs = every registry over N style ids (basedOn of each style in ids 
         "GetStyleInfo (+ Clone ops, resolution on the clone, write-through-the-result probe); plus seeded random "
         "sequences of AddStyle/RemoveStyle/CreateCustomStyle/queries/listings/Clone; judged step by step by StyleInh_Trace.tla")
 
-ALLOPS = {"AddStyle", "RemoveStyle", "Create", "Resolve", "ToXML", "Info", "List", "MutRes", "CloneSwap", "CloneDrop"}
+ALLOPS = {"AddStyle", "RemoveStyle", "Create", "Edit", "Resolve", "ToXML", "Info", "List", "MutRes", "CloneSwap", "CloneDrop"}
 
 
 def enumcfg(ctx, name, n, ymodes, tail):
